@@ -1534,8 +1534,11 @@ def generate_array(repo, out_path):
 # lean/Nstd/Seq/PropsSortT.lean proves: translated swap = `PtrG.swapVal`, translated partition loop = `PtrG.ploopG`,
 # translated sort = `PtrG.qsortG` — for every heap, comparison function and element type.
 class TrS:
-    def __init__(self, fn, lean_name, recursive):
+    def __init__(self, fn, lean_name, recursive, helpers=None, outs=(), ret_item=False):
         self.fn, self.lean_name, self.recursive = fn, lean_name, recursive
+        self.helpers = helpers or {}          # name -> (number of in-parameters, number of out-parameters, returns an item)
+        self.outs, self.ret_item = list(outs), ret_item
+        self.in_tail = 0
         self.n = 0
         self.nloop = 0
         self.loops = []
@@ -1606,6 +1609,31 @@ class TrS:
                     return [f"{i}let {x} := {t}", f"{i}let p := {{ p with val := Ptr.set p.val {a} {x} }}"] + k(x, "val", env2, i)
                 raise Refuse(f"{self.fn}: assignment to something that is not a local or `->value`")
             return self.ev(rhs, env, ind, after)
+        if e[0] == "call" and e[1] in self.helpers:
+            name, args = e[1], e[2]
+            nin, nout, ritem = self.helpers[name]
+            if len(args) != nin + nout:
+                raise Refuse(f"{self.fn}: `{name}` called with {len(args)} arguments")
+            ts = []
+            for a in args[:nin]:
+                t, ty = self.pure(a, env)
+                if ty != "item":
+                    raise Refuse(f"{self.fn}: argument of `{name}` is not an item pointer")
+                ts.append(t)
+            onames = []
+            for a in args[nin:]:
+                if a[0] != "id" or env.get(a[1], ("?",))[0] != "item" or a[1] in onames:
+                    raise Refuse(f"{self.fn}: out-argument of `{name}` is not a distinct item pointer variable")
+                if any(v[0] == "ref" and v[1] == a[1] for v in env.values()):
+                    raise Refuse(f"{self.fn}: `{a[1]}` is passed by reference while a reference is bound through it")
+                onames.append(a[1])
+            x = self.fresh()
+            env2 = dict(env)
+            for o in onames:
+                env2[o] = ("item", True)
+            pat = ", ".join(["p"] + ([x] if ritem else []) + ["v_" + o for o in onames])
+            return ([f"{ind}match {name} lt {self.fuel_here()} p {' '.join(ts)} with", f"{ind}| none => none", f"{ind}| some ({pat}) =>"] +
+                    k(x if ritem else "()", "item" if ritem else "void", env2, ind + "  "))
         if e[0] == "call":
             name, args = e[1], e[2]
             if name not in ("swap", "sort") or len(args) != 2:
@@ -1629,6 +1657,23 @@ class TrS:
     @staticmethod
     def restrict(env, outer):
         return {n: (env[n] if n in env else outer[n]) for n in outer}
+
+    def finish(self, e, env, ind):
+        """`return [e];` / the end of the function: the heap, the returned item, the out-parameters"""
+        for o in self.outs:
+            if not env[o][1]:
+                raise Refuse(f"{self.fn}: out-parameter `{o}` is not assigned on every path")
+        extra = ["v_" + o for o in self.outs]
+        if self.ret_item:
+            if e is None:
+                raise Refuse(f"{self.fn}: `return;` in a function that returns an item")
+            t, ty = self.pure(e, env)
+            if ty != "item":
+                raise Refuse(f"{self.fn}: returns a {ty}")
+            extra = [t] + extra
+        elif e is not None:
+            raise Refuse(f"{self.fn}: value returned from a void function")
+        return [f"{ind}some " + ("p" if not extra else "(" + ", ".join(["p"] + extra) + ")")]
 
     def run(self, stmts, env, ind, tail):
         if not stmts:
@@ -1686,10 +1731,46 @@ class TrS:
             if s[1][0] not in ("assign", "call"):
                 raise Refuse(f"{self.fn}: expression statement without effect")
             return self.ev(s[1], env, ind, lambda t, ty, env2, i: cont(env2, i))
+        if k == "return":
+            if self.in_loop:
+                raise Refuse(f"{self.fn}: `return` inside a loop that is not the function's outer `for(;;)`")
+            return self.finish(s[1], env, ind)
+        if k == "for" and s[2] is None:
+            # `for(;;) { … }` as the whole rest of a recursive function: one turn = one invocation; falling off the body = the
+            # (tail) call of the function itself with the current values of its parameters, `return` = return
+            if s[1] is not None or s[3] or rest or not self.recursive or self.in_loop or self.in_tail:
+                raise Refuse(f"{self.fn}: `for(;;)` that is not the whole remaining body of the recursive function")
+            self.in_tail += 1
+            out = self.run([s[4]], dict(env), ind, lambda env2, ind2: [f"{ind2}{self.lean_name} lt fuel p v_left v_right"])
+            self.in_tail -= 1
+            return out
+        if k == "for":
+            init, c, steps, body = s[1], s[2], s[3], s[4]
+
+            def after_init(env1, ind1):
+                items = [n for n, v in env1.items() if v[0] == "item" and v[1]]
+                if any(v[0] == "val" for v in env1.values()):
+                    raise Refuse(f"{self.fn}: value local alive across the loop")
+                self.nloop += 1
+                name = f"{self.lean_name}_loop{self.nloop}"
+                names = " ".join("v_" + n for n in items)
+                tup = ", ".join(["p"] + ["v_" + n for n in items])
+                self.in_loop += 1
+                inner = self.run([body] + [("expr", x) for x in steps], dict(env1), "      ",
+                                 lambda env2, ind2: [f"{ind2}{name} lt fuel p {names}"])
+                self.in_loop -= 1
+                sig = " → ".join(["Nat", "GHeap α"] + ["Nat"] * len(items) + ["Option (" + " × ".join(["GHeap α"] + ["Nat"] * len(items)) + ")"])
+                self.loops.append([f"def {name} (lt : α → α → Bool) : {sig}",
+                                   "  | 0, " + ", ".join(["_"] * (1 + len(items))) + " => none",
+                                   f"  | fuel + 1, {tup} =>", f"    if {self.cond(c, env1)} then"] + inner +
+                                  ["    else", f"      some ({tup})", ""])
+                return ([f"{ind1}match {name} lt {self.fuel_here()} p {names} with", f"{ind1}| none => none", f"{ind1}| some ({tup}) =>"] +
+                        cont(self.restrict(env1, env), ind1 + "  "))
+            return self.run([init] if init else [], dict(env), ind, after_init)
         if k == "dowhile":
             body, c = s[1], s[2]
-            items = [n for n, v in env.items() if v[0] == "item"]
-            if any(not env[n][1] for n in items):
+            items = [n for n, v in env.items() if v[0] == "item" and v[1]]
+            if False:
                 raise Refuse(f"{self.fn}: an item pointer is unassigned at the loop entry")
             if any(v[0] == "val" for v in env.values()):
                 raise Refuse(f"{self.fn}: value local alive across the loop")
@@ -1720,25 +1801,48 @@ def generate_sort(repo, out_path):
              "import Nstd.Seq.PtrSortG", "", "set_option linter.unusedVariables false", "",
              "namespace Nstd.Generated.SeqSort", "open Nstd.Seq", "open Nstd.Seq.PtrG (GHeap)", "", "variable {α : Type}", ""]
     summary = []
-    specs = [("QuickSort::swap", "swap", r"static\s+void\s+swap\s*\(\s*Item\s*\*\s*a\s*,\s*Item\s*\*\s*b\s*\)", ["a", "b"], False),
-             ("QuickSort::sort", "sort", r"static\s+void\s+sort\s*\(\s*Item\s*\*\s*left\s*,\s*Item\s*\*\s*right\s*\)", ["left", "right"], True)]
-    for fn, lean, rx, params, rec in specs:
-        body = extract(src, fn, rx)
+    m0 = re.search(r"struct\s+QuickSort\s*\{", src)
+    if not m0:
+        raise Refuse("List::sort(): no `struct QuickSort`")
+    sbody = src[m0.end():balanced(src, m0.end() - 1) - 1]
+    funcs = []
+    for m in re.finditer(r"static\s+(void|Item\s*\*)\s+(\w+)\s*\(([^)]*)\)\s*\{", sbody):
+        ins, outs = [], []
+        for prm in m.group(3).split(","):
+            mm = re.fullmatch(r"\s*Item\s*\*\s*(&?)\s*(\w+)\s*", prm)
+            if not mm or (mm.group(1) == "" and outs):
+                raise Refuse(f"QuickSort::{m.group(2)}: parameter `{prm.strip()}` (understood: `Item* x` … then `Item*& y` …)")
+            (outs if mm.group(1) else ins).append(mm.group(2))
+        funcs.append((m.group(2), m.group(1) != "void", ins, outs, sbody[m.end():balanced(sbody, m.end() - 1) - 1]))
+    names = [f[0] for f in funcs]
+    if names.count("swap") != 1 or names.count("sort") != 1 or names[-1] != "sort" or names[0] != "swap":
+        raise Refuse(f"struct QuickSort: functions {names} (expected swap first, sort last, helpers between)")
+    helpers = {}
+    for name, ritem, ins, outs, body in funcs:
+        fn = "QuickSort::" + name
+        rec = name == "sort"
+        if (name == "swap" and (ritem or ins != ["a", "b"] or outs)) or (rec and (ritem or ins != ["left", "right"] or outs)):
+            raise Refuse(f"{fn}: unexpected signature")
         pz = AP(atokenize(body), fn)
         stmts = pz.stmts()
         if pz.peek() is not None:
             raise Refuse(f"{fn}: trailing tokens")
-        tr = TrS(fn, lean, rec)
-        env = {n: ("item", True) for n in params}
-        lines = tr.run(stmts, env, "    " if rec else "  ", lambda env2, ind2: [f"{ind2}some p"])
+        tr = TrS(fn, name, rec, helpers=dict(helpers), outs=outs, ret_item=ritem)
+        env = {n: ("item", True) for n in ins}
+        env.update({n: ("item", False) for n in outs})
+        lines = tr.run(stmts, env, "    " if rec else "  ", lambda env2, ind2, tr=tr: tr.finish(None, env2, ind2))
         for l in tr.loops:
             parts += l
-        ps = " ".join("v_" + n for n in params)
+        ps = " ".join("v_" + n for n in ins)
         if rec:
-            parts += [f"def {lean} (lt : α → α → Bool) : Nat → GHeap α → Nat → Nat → Option (GHeap α)",
-                      "  | 0, _, _, _ => none", f"  | fuel + 1, p, {', '.join('v_' + n for n in params)} =>"] + lines + [""]
+            parts += [f"def {name} (lt : α → α → Bool) : Nat → GHeap α → Nat → Nat → Option (GHeap α)",
+                      "  | 0, _, _, _ => none", f"  | fuel + 1, p, {', '.join('v_' + n for n in ins)} =>"] + lines + [""]
+        elif name == "swap":
+            parts += [f"def {name} (p : GHeap α) ({ps} : Nat) : Option (GHeap α) :="] + lines + [""]
         else:
-            parts += [f"def {lean} (p : GHeap α) ({ps} : Nat) : Option (GHeap α) :="] + lines + [""]
+            rty = " × ".join(["GHeap α"] + ["Nat"] * ((1 if ritem else 0) + len(outs)))
+            parts += [f"def {name} (lt : α → α → Bool) (fuel : Nat) (p : GHeap α) ({ps} : Nat) : Option ({rty}) :="] + lines + [""]
+            helpers[name] = (len(ins), len(outs), ritem)
         summary.append(f"{fn}:{len(stmts)} stmts/{len(tr.loops)} loop(s)")
     # the public sort(): early return for 0 / 1 element, then QuickSort::sort(_begin.item, endItem.prev)
     pub = re.sub(r"\s+", "", extract(src, "List::sort()", r"void\s+sort\s*\(\s*\)"))
